@@ -215,8 +215,6 @@ def run_sim(sh):
         a.sim_tick()
       sh.count("sim_components")
   import sys
-  if "/repo" not in sys.path:
-    sys.path.insert(0, "/repo")
   from vlib.checks import c20_proc
   c20_proc.run_programs_for_monitor(sh, rng, 2 if sh.tier == "quick" else 12)
   sh.count("sim_processor_programs", 2 if sh.tier == "quick" else 12)
